@@ -543,3 +543,27 @@ func init() {
 		Rule:   "one job per function / string length; the real BIOS bytes run on the real Step, Memory and IO; obligations: console contents, return address, SP, preserved registers, memory outside the two stack bytes, warnings",
 	})
 }
+
+func init() {
+	register(&PropCheck{
+		ID:   "C19",
+		Dirs: []string{"cim2bin", "cim2cas"},
+		Jobs: func(tier string, seed int64) []Job {
+			var jobs []Job
+			for _, k := range []int{1, 5, 12} {
+				jobs = append(jobs, Job{Dir: "cim2bin", Harness: "VC19Bin", Params: []int{k}, Label: fmt.Sprintf("VC19Bin/k%d", k)})
+			}
+			for k := 1; k <= 12; k++ {
+				jobs = append(jobs, Job{Dir: "cim2cas", Harness: "VC19Cas", Params: []int{k, 0}, Label: fmt.Sprintf("VC19Cas/file%d/default-name", k)})
+			}
+			for m := 1; m <= 12; m++ {
+				jobs = append(jobs, Job{Dir: "cim2cas", Harness: "VC19Cas", Params: []int{8, m}, Label: fmt.Sprintf("VC19Cas/file8/nam%d", m)})
+			}
+			return jobs
+		},
+		Bounds: map[string]interface{}{"image": "length L symbolic 1..65536 with symbolic content (the body is one chunk), offset symbolic with off+L-1 <= 0xFFFF", "names": "file name length 1..12 (default name), -nam length 1..12, case split; characters symbolic"},
+		Assume: []string{"flag.Parse stores the given values in the registered variables; os.ReadFile returns the file's bytes; os.Create succeeds; bufio.Writer delivers the written bytes, unmodified and in order, once flushed (error returns end the path, nothing asserted)", "file names are made of [a-z0-9] so that the native replay can create them", "the operating system and real files are outside (the replay does use real temp files)"},
+		Stubs:  []string{"flag.StringVar/UintVar/Parse", "os.ReadFile", "os.Create", "(*os.File).Close", "bufio.NewWriter", "(*bufio.Writer).WriteByte/Write/Flush"},
+		Rule:   "one job per name length; obligations: every header byte, total length, flushed+closed, and the body compared at a symbolic offset with the input slice",
+	})
+}
